@@ -3,6 +3,7 @@ package main
 // Pure SMT lemmas declared in contract files, and static (syntactic) checks.
 
 import (
+	"strconv"
 	"fmt"
 	"os"
 	"path/filepath"
@@ -177,7 +178,7 @@ func (p *Prog) metricDefs(pkgPath string) (counters, gauges map[string]bool, fou
 // declared in the emitting package's MetricDefinitions.
 func (p *Prog) staticObligations(prop string) ([]*Obl, []string) {
 	if prop != "C20" {
-		return nil, nil
+		return p.docObligations(prop), nil
 	}
 	var out []*Obl
 	var notes []string
@@ -240,4 +241,61 @@ func (p *Prog) staticObligations(prop string) ([]*Obl, []string) {
 		}
 	}
 	return out, notes
+}
+
+
+// docObligations: `//@ doc[Cnn.label] <file> contains|lacks "<text>"` lines in
+// the contract files pin sentences of the documentation that the contracts
+// were written against (whitespace-insensitive). The documented format is the
+// specification of C09; where a contract had to follow the code against the
+// letter of the README, the README sentence is pinned here so that the two
+// cannot drift apart silently.
+func (p *Prog) docObligations(prop string) []*Obl {
+	var out []*Obl
+	files, _ := filepath.Glob(filepath.Join(repoDir, "*", "contracts_verif.go"))
+	more, _ := filepath.Glob(filepath.Join(repoDir, "contracts_verif.go"))
+	files = append(files, more...)
+	sort.Strings(files)
+	norm := func(s string) string { return strings.Join(strings.Fields(s), " ") }
+	for _, f := range files {
+		data, err := os.ReadFile(f)
+		if err != nil {
+			continue
+		}
+		for ln, line := range strings.Split(string(data), "\n") {
+			line = strings.TrimSpace(line)
+			if !strings.HasPrefix(line, "//@ doc[") {
+				continue
+			}
+			rb := strings.Index(line, "]")
+			if rb < 0 {
+				continue
+			}
+			label := line[len("//@ doc["):rb]
+			if labelProp(label) != prop {
+				continue
+			}
+			rest := strings.TrimSpace(line[rb+1:])
+			parts := strings.SplitN(rest, " ", 3)
+			if len(parts) < 3 {
+				continue
+			}
+			text, err := strconv.Unquote(strings.TrimSpace(parts[2]))
+			if err != nil {
+				continue
+			}
+			doc, derr := os.ReadFile(filepath.Join(repoDir, parts[0]))
+			has := derr == nil && strings.Contains(norm(string(doc)), norm(text))
+			o := &Obl{Unit: "doc:" + parts[0], Name: fmt.Sprintf("doc:%s/%s[%s]", parts[0], parts[1], label), Kind: "static", Labels: []string{label}, Goal: True, Expect: "unsat", Backend: "syntactic", Where: fmt.Sprintf("%s:%d", f, ln+1)}
+			ok := (parts[1] == "contains" && has) || (parts[1] == "lacks" && !has && derr == nil)
+			if ok {
+				o.Status = "proved"
+			} else {
+				o.Status = "refuted"
+				o.Model = fmt.Sprintf("%s %s %q does not hold", parts[0], parts[1], text)
+			}
+			out = append(out, o)
+		}
+	}
+	return out
 }
